@@ -26,7 +26,7 @@ EXTENDS P2pNeg, Json, IOUtils, TLCExt, Sequences
 VARIABLES tid, l, soft
 tvars == <<c, ph, conn, sent, tid, l, soft>>
 
-TKinds == {"dep", "ml", "opt", "depx", "llcp"}
+TKinds == {"dep", "ml", "opt", "lto", "depx", "llcp"}
 
 Traces == ndJsonDeserialize(IOEnv.TRACE_FILE)
 T == Traces[tid].ev
